@@ -208,3 +208,55 @@ Theorem C03_unknown_variable_operand : forall exec n st, sc_lookup (i_scopes st)
   (st, err (lit "can't read """ ++ n ++ lit """: no such variable")).
 Proof. exact ExprFacts3.unknown_var_message. Qed.
 Print Assumptions C03_unknown_variable_operand.
+
+(* ---- array elements, strings with substitutions, nested braces (Proofs/ExprFacts4.v) ----
+   tree4: tree3 with three more operand leaves: `$a(index)` for any well-formed index of
+   Spec/SpecGrammar.v (literal text, escapes, `$name`, nested `$b(i)`, `[script]`), quoted strings
+   with any well-formed content (literal text, every backslash escape, `$name`, `${name}`, `$a(i)`,
+   `[script]`), braced strings with nested braces and backslashes.  With these every operand form
+   the lexer accepts is covered by a completeness theorem. *)
+From Molt Require Proofs.ExprFacts4.
+
+Theorem C03_every_operand_completeness : forall exec st t lead trail,
+  ExprFacts4.ok4_std t = true -> ws lead = true -> ws trail = true ->
+  expr_eval (u_alnum std_uni) (u_alpha std_uni) exec st (VStr (lead ++ ExprFacts4.render4 t ++ trail)) =
+  (fst (ExprFacts4.ev4 exec t st), ExprFacts3.top_res (snd (ExprFacts4.ev4 exec t st))).
+Proof. exact ExprFacts4.expr_eval_render4_std. Qed.
+Print Assumptions C03_every_operand_completeness.
+
+(* no command substitution anywhere (and indices / strings that only read variables): the state
+   is returned as it was *)
+Theorem C03_every_operand_frame : forall exec st t lead trail,
+  ExprFacts4.ok4_std t = true -> ExprFacts4.pure4 t = true -> ws lead = true -> ws trail = true ->
+  expr_eval (u_alnum std_uni) (u_alpha std_uni) exec st (VStr (lead ++ ExprFacts4.render4 t ++ trail)) =
+  (st, ExprFacts3.top_res (snd (ExprFacts4.ev4 exec t st))).
+Proof. exact ExprFacts4.expr_eval_render4_frame. Qed.
+Print Assumptions C03_every_operand_frame.
+
+Theorem C03_element_operand_value : forall exec n x st,
+  ExprFacts4.ev4 exec (ExprFacts4.X4 (ExprFacts4.KArr n [SpecGrammar.SLit x])) st =
+  (st, ExprFacts3.rb (st_element st n x) expr_parse_value).
+Proof. exact ExprFacts4.arr_leaf_value. Qed.
+Print Assumptions C03_element_operand_value.
+
+Theorem C03_unknown_element_operand : forall exec n x st m,
+  sc_lookup (i_scopes st) n = Some (VarArray m) -> assoc_get x m = None ->
+  ExprFacts4.ev4 exec (ExprFacts4.X4 (ExprFacts4.KArr n [SpecGrammar.SLit x])) st =
+  (st, err (lit "can't read """ ++ n ++ lit "(" ++ x ++ lit ")"": no such element in array")).
+Proof. exact ExprFacts4.unknown_element_message. Qed.
+Print Assumptions C03_unknown_element_operand.
+
+(* a quoted operand is the concatenation of its pieces, evaluated left to right with the state
+   threaded through them, read as a string operand *)
+Theorem C03_quoted_operand_value : forall exec l st,
+  ExprFacts4.ev4 exec (ExprFacts4.X4 (ExprFacts4.KQuoS l)) st =
+  (fst (GrammarFacts.eval_seq exec st (ExprFacts4.quo_pieces l)),
+   ExprFacts3.rb (snd (ExprFacts4.cat_of (GrammarFacts.eval_seq exec st (ExprFacts4.quo_pieces l)))) expr_parse_string).
+Proof. exact ExprFacts4.quo_leaf_value. Qed.
+Print Assumptions C03_quoted_operand_value.
+
+Theorem C03_braced_operand_value : forall exec b st,
+  ExprFacts4.ev4 exec (ExprFacts4.X4 (ExprFacts4.KBraceN b)) st =
+  (st, expr_parse_string (flat_map SpecGrammar.bseg_value b)).
+Proof. exact ExprFacts4.brace_leaf_value. Qed.
+Print Assumptions C03_braced_operand_value.
